@@ -1,7 +1,7 @@
 (** C11 (round 2): the REGENERATED four-branch frequency formula is monotone in the model's
     future frequency: a model that simulates more beyond-threshold events in the application
     period never gets fewer after adjustment (all branches, the isclose shortcut included). *)
-From Coq Require Import QArith Qabs ZArith List Bool Lia Lqa.
+From Coq Require Import QArith Qabs Qround ZArith List Bool Lia Lqa.
 From IV Require Import NP QL QFacts GenIsimip C11_proofs.
 Open Scope Q_scope.
 
@@ -37,4 +37,34 @@ Proof.
     + lra.
     + lra.
   - qb. lra.
+Qed.
+
+(* ---------- rounding (Python's round: half to even) is monotone ---------- *)
+Lemma round_half_even_monotone q1 q2 : q1 <= q2 -> (QL.round_half_even q1 <= QL.round_half_even q2)%Z.
+Proof.
+  intro Hq.
+  destruct (round_half_even_spec q1) as [_ [L1 U1]]. destruct (round_half_even_spec q2) as [_ [L2 U2]].
+  assert (Ff : (Qfloor q1 <= Qfloor q2)%Z) by (apply Qfloor_resp_le; exact Hq).
+  destruct (Z.eq_dec (Qfloor q1) (Qfloor q2)) as [Ef|Nf]; [|lia].
+  clear L1 U1 L2 U2. unfold QL.round_half_even. cbv zeta. rewrite <- Ef.
+  set (f := Qfloor q1). set (r1 := q1 - inject_Z f). set (r2 := q2 - inject_Z f).
+  assert (Hr : r1 <= r2) by (unfold r1, r2; lra).
+  destruct (Qle_bool r1 (1 # 2)) eqn:A1; destruct (Qle_bool r2 (1 # 2)) eqn:A2; qb; try lia; try (exfalso; lra).
+  - destruct (Qeq_bool r1 (1 # 2)) eqn:B1; destruct (Qeq_bool r2 (1 # 2)) eqn:B2.
+    + destruct (Z.even f); lia.
+    + apply Qeq_bool_iff in B1. apply Qeq_bool_neq in B2. exfalso. apply B2. lra.
+    + destruct (Z.even f); lia.
+    + lia.
+  - destruct (Qeq_bool r1 (1 # 2)); destruct (Z.even f); lia.
+Qed.
+
+(** the COUNT of values set to a bound, round(n * P), is monotone in the model's future frequency *)
+Theorem count_monotone_in_future (n : Z) Po Ph Pf1 Pf2 : (0 <= n)%Z -> 0 <= Po <= 1 -> 0 <= Ph <= 1 -> Pf1 <= Pf2 ->
+  (QL.round_half_even (inject_Z n * step6_P_obs_future Po Ph Pf1) <=
+   QL.round_half_even (inject_Z n * step6_P_obs_future Po Ph Pf2))%Z.
+Proof.
+  intros Hn Ho Hh Hf. apply round_half_even_monotone.
+  pose proof (P_monotone_in_future Po Ph Pf1 Pf2 Ho Hh Hf) as M.
+  assert (N0 : 0 <= inject_Z n) by (change 0 with (inject_Z 0); rewrite <- Zle_Qle; exact Hn).
+  nra.
 Qed.
